@@ -62,6 +62,12 @@ def prop_ids(sfx):
     return st + [f"{s}.{sfx}" for s in st]
 
 
+def spec_odd_ids(sfx):
+    """identifiers (in the property's domain) that merely *contain* the store suffix or one of the words the code
+    substitutes ('json', 'txt'), with and without the format suffix"""
+    return [f"so{sfx}", f"so{sfx}.{sfx}", f"x.{sfx}.{sfx}", f"{sfx}_x", "xjson", "json_x", "xtxt"]
+
+
 def odd_ids(sfx):
     """identifiers that contain the store suffix / the reserved words / foreign or repeated extensions"""
     return [
@@ -713,13 +719,11 @@ def check_history(ctx, kind, sfx, mode, ops, tag="h", stop_at_first=True):
                         locked, fresh_w = False, False
                     elif o.mode != "r" and not raised:
                         locked, fresh_w = True, False
-                if raised or spec_rej:
+                # a rejected operation (read-only / append-existing / the documented lock refusal) must be a no-op,
+                # whether it raises or is silently ignored; any other operation takes effect in the dictionary
+                # even if the real call raised -- the following observation then shows the divergence
+                if spec_rej or excused:
                     stats["rejected"] += 1
-                    if raised and not spec_rej and not excused and op[0] in ("w", "nc", "log", "drop", "unlock"):
-                        sig = f"{kind}:{op[0]}:unexpected-raise:{res['err']}," + _classify(kind, sfx, op, res, None, dict(c=[], nc=[]), dict(c=[], nc=[]), before).split(":", 3)[3]
-                        return dict(
-                            what=f"{op[0]} raised {res['err']} although the dictionary model accepts the operation",
-                            input=dict(store=kind, sfx=sfx, mode=mode, ops=ops[: i + 1]), expected="no exception", got=res, sig=sig), stats
                 else:
                     o.apply(op)
                 last_op, last_res, last_before = op, res, before
@@ -813,7 +817,7 @@ def spec_check(ctx, budget):
     for i in range(220 * budget):
         kind = "dir" if rng.random() < 0.65 else "sql"
         sfx = rng.choice(SFXS) if kind == "dir" else "fasta"
-        pool = prop_ids(sfx) + (odd_ids(sfx) if rng.random() < 0.25 else [])
+        pool = prop_ids(sfx) + (spec_odd_ids(sfx) if rng.random() < 0.25 else [])
         mode, ops = gen_history(rng, kind, sfx, pool, nmax=40 if i % 3 else 12)
         cases.append((kind, sfx, mode, [op for op in ops if op[0] != "obs"]))
     seen_sigs = {}
